@@ -182,12 +182,25 @@ def rule_tables_applicable(ck, repo, R):
         f = m.functions.get(fn)
         ck.require(f is not None, f'_charged.{fn} vanished')
         q = None
+        found = []  # (pattern, fix, line)
+        for st in ast.walk(f.node):
+            # table form: [(smarts(p), fix) for p, fix in (<literal pairs>)]
+            if isinstance(st, (ast.ListComp, ast.GeneratorExp)) and len(st.generators) == 1 and isinstance(st.generators[0].iter, (ast.Tuple, ast.List)) \
+                    and isinstance(st.elt, ast.Tuple) and len(st.elt.elts) == 2 and isinstance(st.elt.elts[0], ast.Call) and src(st.elt.elts[0].func) == 'smarts':
+                try:
+                    for pq, pfix in ast.literal_eval(st.generators[0].iter):
+                        found.append((pq, pfix, st.lineno))
+                except Exception:
+                    raise AnalysisError(f'_charged.{fn}: rule table is not a literal')
         for st in f.node.body:
             if isinstance(st, ast.Assign) and src(st.targets[0]) == 'q' and isinstance(st.value, ast.Call) and st.value.args and isinstance(st.value.args[0], ast.Constant):
                 q = st.value.args[0].value
             elif isinstance(st, ast.Expr) and isinstance(st.value, ast.Call) and src(st.value.func) == 'rules.append':
                 tup = st.value.args[0]
-                fix = ast.literal_eval(tup.elts[1])
+                found.append((q, ast.literal_eval(tup.elts[1]), st.lineno))
+        for q, fix, line_ in found:
+            if True:
+                st = type('L', (), {'lineno': line_})
                 numbers, problems = smarts_atoms(q)
                 need = {1, 2} | ({3} if fix else set())
                 n2 += 1
